@@ -29,6 +29,11 @@ void nsync_mu_semaphore_p (nsync_semaphore *s) {
 void nsync_mu_semaphore_v (nsync_semaphore *s) {
 	(void) s;
 	vp_g.v_calls++;
+#ifdef VP_RG_MU
+	/* C13: a waiter woken by a thread that no longer holds the lock may acquire, find it is the last user and free the mutex:
+	   from the first such post on the mutex must not be touched (the queue spinlock bit does not keep anybody out) */
+	if (vp_g.release_ctx && vp_g.hold == VP_NONE) vp_g.dead = 1;
+#endif
 #ifdef VP_RG_WAKER
 	VP_ASSERT (vp_wk.pending, "C02/C04: a waker posts a waiter's semaphore only after clearing that waiter's waiting flag");
 #ifdef VP_WK_LOCKED
@@ -59,9 +64,20 @@ void vp_fw_init (void) {
 	vp_fw.same_condition.prev = &vp_fw.same_condition;
 	vp_fw.tag = WAITER_TAG;
 	vp_fw.nw.tag = NSYNC_WAITER_TAG;
+#ifdef VP_TWO_RECORDS
+	vp_fw2.nw.q.container = &vp_fw2.nw; vp_fw2.nw.q.next = &vp_fw2.nw.q; vp_fw2.nw.q.prev = &vp_fw2.nw.q; vp_fw2.nw.sem = &vp_fw2.sem;
+	vp_fw2.same_condition.container = &vp_fw2; vp_fw2.same_condition.next = &vp_fw2.same_condition; vp_fw2.same_condition.prev = &vp_fw2.same_condition;
+	vp_fw2.tag = WAITER_TAG; vp_fw2.nw.tag = NSYNC_WAITER_TAG;
+#endif
 }
+#ifdef VP_TWO_RECORDS
+waiter vp_fw2;  /* a second, distinct foreign record (bounded, non-dfcc groups only), so that "first != last" is representable */
+#endif
 static nsync_dll_element_ *some_record (void) {
 	waiter *w = &vp_fw;
+#ifdef VP_TWO_RECORDS
+	if (vp_nondet_bool ()) w = &vp_fw2;
+#endif
 	w->nw.waiting = vp_nondet_u32 ();
 	w->nw.flags = (uint32_t) vp_nondet_u32 ();
 	w->remove_count = vp_nondet_u32 ();
